@@ -1922,17 +1922,22 @@ impl<R: Read> MessageReader<R> {
     /// - `Ok(Some(_))` with the length otherwise.
     pub fn read_meta_len(&mut self) -> Result<Option<usize>, ArrowError> {
         let mut meta_len: [u8; 4] = [0; 4];
-        match self.reader.read_exact(&mut meta_len) {
-            Ok(()) => {}
-            Err(e) => {
-                return if e.kind() == std::io::ErrorKind::UnexpectedEof {
-                    // Handle EOF without the "0xFFFFFFFF 0x00000000"
-                    // valid according to:
-                    // https://arrow.apache.org/docs/format/Columnar.html#ipc-streaming-format
-                    Ok(None)
-                } else {
-                    Err(ArrowError::from(e))
-                };
+        let mut filled = 0;
+        while filled < meta_len.len() {
+            match self.reader.read(&mut meta_len[filled..]) {
+                // Handle EOF without the "0xFFFFFFFF 0x00000000"
+                // valid according to:
+                // https://arrow.apache.org/docs/format/Columnar.html#ipc-streaming-format
+                Ok(0) if filled == 0 => return Ok(None),
+                // The stream ends part way through a length prefix: it is truncated
+                Ok(0) => {
+                    return Err(ArrowError::from(std::io::Error::from(
+                        std::io::ErrorKind::UnexpectedEof,
+                    )));
+                }
+                Ok(n) => filled += n,
+                Err(e) if e.kind() == std::io::ErrorKind::Interrupted => {}
+                Err(e) => return Err(ArrowError::from(e)),
             }
         }
 
